@@ -226,7 +226,8 @@ func SliceArgs(content string) (expr string, err error) {
 			}
 		}
 		if hasCodeBetweenEndAndBrace {
-			to = int(decl.Rbrace) - 1
+			// Keep the code, but not the padding in front of the closing brace.
+			to = from + len(strings.TrimRight(src[from:decl.Rbrace-1], " \t"))
 		}
 		return false
 	})
